@@ -43,6 +43,8 @@ impl Interp {
             c.app_dir_preprocessor(|dir| {
                 std::fs::write(dir.join("added-by-preprocessor"), "x").unwrap();
                 let _ = std::fs::remove_file(dir.join("Procfile"));
+                // (not idempotent: running twice over the same directory shows)
+                std::fs::OpenOptions::new().create(true).append(true).open(dir.join("count")).and_then(|mut h| std::io::Write::write_all(&mut h, b"+p")).unwrap();
                 // an existing file rewritten in place (same inode), appended to and made private
                 use std::io::Write as _;
                 use std::os::unix::fs::PermissionsExt as _;
@@ -59,8 +61,11 @@ impl Interp {
         let mut c = ContainerConfig::new();
         c.expose_port(8080);
         let k = &self.cfg["container"];
+        // (the setters are independent of each other: either order gives the same configuration)
+        let command_first = self.cfg["command_first"] == true;
+        if command_first { if let Some(cmd) = k["command"].as_array() { c.command(cmd.iter().map(|x| x.as_str().unwrap().to_string()).collect::<Vec<_>>()); } }
         if let Some(e) = k["entrypoint"].as_str() { c.entrypoint(e); }
-        if let Some(cmd) = k["command"].as_array() { c.command(cmd.iter().map(|x| x.as_str().unwrap().to_string()).collect::<Vec<_>>()); }
+        if !command_first { if let Some(cmd) = k["command"].as_array() { c.command(cmd.iter().map(|x| x.as_str().unwrap().to_string()).collect::<Vec<_>>()); } }
         if let Some(env) = k["env"].as_array() {
             // the first pair through env(), the others through envs(): both add to what is there
             let pairs: Vec<(String, String)> = env.iter().map(|kv| (kv[0].as_str().unwrap().to_string(), kv[1].as_str().unwrap().to_string())).collect();
@@ -84,7 +89,15 @@ impl Interp {
                 }),
                 "start_container" => ctx.start_container(self.container_config(), |cc| self.container_body(cc)),
                 "rebuild" => {
-                    ctx.rebuild(self.build_config(&s["outcome"], false), |ctx2| self.build_body(ctx2));
+                    // either a configuration of its own, or the documented idiom: the context's configuration again
+                    let config = if self.cfg["rebuild_from_context"] == true {
+                        let mut c = ctx.config.clone();
+                        c.expected_pack_result(if s["outcome"]["expected"] == "Success" { PackResult::Success } else { PackResult::Failure });
+                        c
+                    } else {
+                        self.build_config(&s["outcome"], false)
+                    };
+                    ctx.rebuild(config, |ctx2| self.build_body(ctx2));
                     // the context was consumed: only the test's own code can follow
                     loop {
                         let Some(t) = self.next() else { return };
